@@ -8,6 +8,26 @@ ALL = [f"C{i:02d}" for i in range(1, 21)]
 
 # id -> (technique, level text, level note, design ref)
 CHECKS = {
+    "C19": (
+        "exhaustive product enumeration operand form pair x unit pair x value relation x rtol spelling x atol spelling x "
+        "helper function, registry pair x relation, unit pair x relation for the equality helpers, and dimension x argument "
+        "spelling x usage form for the decorators, on the real code; verdict computed on SI magnitudes",
+        "allclose_units (positional and keyword), assert_allclose_units, np.allclose and np.isclose over 16 ordered pairs "
+        "of operand forms (quantity, array, list of quantities, bare) x 3 units of actual x 8 units of desired (same, "
+        "commensurable, incommensurable, dimensionless, percent, bare) x 4 value relations (equal, inside, outside, far - all "
+        "a factor 4 from every boundary) x 4 rtol spellings (float, dimensionless quantity, percent quantity, zero) x 7 "
+        "atol spellings (zero, bare small/large, same unit, other commensurable unit small/large, wrong dimension): accept "
+        "exactly when commensurable and |A-D| <= atol + rtol|D| in SI with a bare atol read in desired's unit, otherwise "
+        "refuse (False, AssertionError or exception); every commensurable case repeated with both arguments re-expressed in "
+        "every other unit (verdict must not change); the same unit name with different sizes in two registries; array_equal/"
+        "array_equiv/assert_array_equal_units over 11 unit pairs incl. equal-but-differently-spelled units; accepts/returns "
+        "over all 64 dimensions of unyt.dimensions x good/scaled/array/wrong/wrong-power/bare arguments x 8 usage forms "
+        "(pass iff dimension matches, TypeError otherwise, wrapped function called exactly once / not at all, result object "
+        "returned unchanged).",
+        "np.allclose/np.isclose with a bare or explicitly dimensionless operand against another unit carry no verdict "
+        "(the statement's exceptions overlap; counted). accepts() is judged on the arguments actually passed.",
+        "DESIGN.md section 6 C19",
+    ),
     "C17": (
         "exhaustive product enumeration dtype x conversion route x unit pair x value alphabet (dtype limits and float-"
         "precision thresholds) x {scalar, array, strided view}, and ordered dtype pair x mixed-unit binary ufunc x call "
